@@ -181,7 +181,7 @@ pub fn snap_should_accept(c: &CState, v: Uuid) -> bool {
 }
 
 pub fn snap_corner(c: &CState, v: Uuid) -> bool {
-    v != NIL && (0..5).any(|k| back(c, k) == v && !stored(c, v) && (0..k).all(|j| stored(c, back(c, j))))
+    v != NIL && !snap_at(c, v) && (0..5).any(|k| back(c, k) == v && !stored(c, v) && (0..k).all(|j| stored(c, back(c, j)) && !snap_at(c, back(c, j))))
 }
 
 #[derive(Clone, Copy, PartialEq, Eq, Debug, PartialOrd, Ord)]
